@@ -42,6 +42,7 @@ type Ctx struct {
 	Explanation string
 	CoverNeed   map[string]bool
 	scratch     []string
+	validating  int
 }
 
 func (c *Ctx) Thorough() bool { return c.Tier == "thorough" }
@@ -182,6 +183,7 @@ func (c *Ctx) RunSym(job SymJob) *gosym.Report {
 	for _, s := range rep.Samples {
 		c.AddSample(map[string]interface{}{"job": job.Name, "decisions": s.Decisions, "path_condition": s.PC, "model": s.Model, "covers": s.Covers})
 	}
+	c.validateSample(job, rep)
 	if job.noReplay {
 		return rep
 	}
@@ -363,8 +365,8 @@ func TestVerifReplay(t *testing.T) {
 
 func parseReplayOutput(out string, err error) (string, string) {
 	for _, l := range strings.Split(out, "\n") {
-		if strings.HasPrefix(l, "VERIF-REPLAY ") {
-			rest := strings.TrimPrefix(l, "VERIF-REPLAY status=")
+		if k := strings.Index(l, "VERIF-REPLAY status="); k >= 0 {
+			rest := l[k+len("VERIF-REPLAY status="):]
 			parts := strings.SplitN(rest, " msg=", 2)
 			msg := ""
 			if len(parts) > 1 {
@@ -493,5 +495,63 @@ func (c *Ctx) NeedCovers(labels ...string) {
 		if c.Rep == nil || c.Rep.Covers[l] == 0 {
 			c.Inconclusive("cover point %q not reached by any job (vacuous check?)", l)
 		}
+	}
+}
+
+// validateSample replays the model of one explored, non-violating path natively: the
+// native harness run must pass too (engine and real build agree on that path).
+func (c *Ctx) validateSample(job SymJob, rep *gosym.Report) {
+	if job.noReplay || job.noNativeReplay || job.Replay.Kind == "" || job.Replay.Kind == "none" {
+		return
+	}
+	limit := 1
+	if c.Thorough() {
+		limit = 4
+	}
+	c.mu.Lock()
+	if c.validating >= limit {
+		c.mu.Unlock()
+		return
+	}
+	var sample *gosym.PathSample
+	for i := range rep.Samples {
+		if rep.Samples[i].Status == "ok" && len(rep.Samples[i].Model) > 0 {
+			sample = &rep.Samples[len(rep.Samples)-1-i]
+			if sample.Status != "ok" {
+				sample = &rep.Samples[i]
+			}
+			break
+		}
+	}
+	if sample == nil {
+		c.mu.Unlock()
+		return
+	}
+	c.validating++
+	c.mu.Unlock()
+	if job.pre != nil {
+		job.pre()
+	}
+	var inputs []string
+	for k := range sample.Model {
+		inputs = append(inputs, k)
+	}
+	sort.Strings(inputs)
+	rf := ReplayFile{Property: c.ID, Key: "sample", What: "validation of an explored path", Entry: job.Entry, Args: job.Args, Spec: job.Replay, Model: sample.Model, Inputs: inputs}
+	dir := filepath.Join(VerifDir, "replays", c.ID)
+	os.MkdirAll(dir, 0o755)
+	path := filepath.Join(dir, "validated_"+sanitize(job.Name)+".json")
+	WriteJSON(path, rf)
+	status, msg := NativeReplay(&rf, path)
+	switch status {
+	case "passed":
+		c.mu.Lock()
+		c.Validated++
+		c.mu.Unlock()
+		os.Remove(path)
+	case "skipped":
+		os.Remove(path)
+	default:
+		c.Inconclusive("%s: engine explored a path as passing but the native run of the same inputs ended %s (%s): engine or stub suspect, replay=%s", job.Name, status, msg, path)
 	}
 }
